@@ -130,6 +130,21 @@ CLAIMED = {
         note="Branch probabilities inside the exhaustive sum come from the model (the code does not expose them) and are tied to the code by the near-branch walk runs; lattices <= 4 sites; real walkers/trials.",
         design_ref="DESIGN.md section 5, C10",
     ),
+    "C11": dict(
+        name="zero_variance",
+        technique="deterministic simulation: complete driver.afqmc runs with the exact eigenvector as multi-Slater trial on a simulated communicator under seeded schedules and injected field tails, an in-loop monitor of |E_local - E0| at every step; determinant lists assembled through the real interface (state dict, dets.bin written by an independent writer, pyscf FCI) and compared with a Fock-space engine",
+        text=(
+            "Seeded exploration: (lists) random CI vectors and exact eigenvectors over <= 4 orbitals (open and closed shell) become determinant lists "
+            "with random order, random reference determinant and random admissible excitation cut-off through get_excitations(state=...), through a "
+            "dets.bin file written by an independent writer and read by the real read_dets, and through pyscf's FCI solver + get_fci_state; the library "
+            "overlap of random complex walkers equals sum_i c_i <D_i|phi> from the Fock engine and, for an eigenvector, every local energy equals the "
+            "eigenvalue. (driver) complete driver.afqmc runs with the exact trial on 1-3 simulated ranks, restricted and unrestricted walkers, PRNG-chosen "
+            "schedules and injected field tails: a harness propagator records max |E_local - E0| over live walkers at every propagate entry inside the "
+            "compiled loops, and every row of samples_raw.dat with non-zero weight and the returned energy equal E0."
+        ),
+        note="Fock engine ground energy is cross-checked against pyscf FCI in the pyscf-route runs; full determinant lists only (compiled shapes independent of the reference); restricted walkers only with closed-shell references; blocks with extinct population (weight 0) have no energy and are counted, not compared.",
+        design_ref="DESIGN.md section 5, C11",
+    ),
 }
 
 NOT_APPLICABLE = {
@@ -147,10 +162,7 @@ NOT_APPLICABLE = {
 }
 
 # properties planned as simulation targets whose check is not built yet
-PENDING = {
-    k: "planned simulation target (DESIGN.md section 5); its check is not built yet, so nothing is claimed for it in this commit"
-    for k in ["C11"]
-}
+PENDING = {}
 
 
 def build():
